@@ -23,6 +23,7 @@ def op_st():
         st.tuples(st.just("adv"), st.sampled_from([1, 1, 2, 4, 16])),
         st.tuples(st.just("adv_win"), st.sampled_from([-1, 0, 0, 1])),  # oldest live grant ages to window (+/- 1 tick)
         st.tuples(st.just("consume_bad"), st.sampled_from([0, -1])),
+        st.tuples(st.just("set_max"), st.sampled_from([0, 1, 2, 3, 5, 8, 70])),  # the owner retunes the shared budget at run time
     )
 
 
@@ -60,6 +61,10 @@ def check_component(case: dict) -> Verdict:
                         clock.t = clock.t0 + g(target)
                         boundary = True
                 continue
+            if k == "set_max":
+                real.max_retries = op[1]
+                m.max = op[1]
+                continue
             if k == "consume_bad":
                 try:
                     r = real.consume(op[1])
@@ -84,7 +89,8 @@ def check_component(case: dict) -> Verdict:
             if got != want:
                 v.fail(f"C10:budget-{k}", f"Budget(max_retries={case['max']}, window={case['window']} ticks): op #{i} {op} at t={t}: implementation {got!r}, model {want!r}; grants so far {m.grants}")
                 break
-        if not v.violations and not m.window_bound_ok():
+        retuned = any(o[0] == "set_max" for o in case["ops"])  # the bound is stated for a fixed max_retries
+        if not v.violations and not retuned and not m.window_bound_ok():
             v.fail("C10:window-bound", f"more than {case['max']} grants inside one window: {m.grants}")
     finally:
         bootstrap.set_clock(None)
